@@ -71,66 +71,96 @@ Proof. intros ls cap post Hv Hc. split; [apply pack_show_name; assumption|apply 
 
 (* ================================================================== *)
 (* value -> wire -> value, generically over the translated layouts
-   (Proofs/RoundtripFieldProofs.v, Proofs/RoundtripRRProofs.v).
+   (Proofs/RoundtripFieldProofs.v, Proofs/RoundtripRRProofs.v), for every field
+   kind and every record type of the table, without name compression.
 
-   [canon v k x]  x is a canonical value of field kind k inside the RDATA v:
-                  integers below 2^(8w); names that are the presentation form
-                  of a valid wire name; character-strings that print at most 255
-                  octets; non-empty lists of such; 4 / 16 octet addresses; octet
-                  strings with only the backslash escaped; opaque octets, and,
-                  for a sized field, as many octets as its size field says;
-                  lists of such names; type bitmaps that are strictly
-                  increasing lists of 16-bit type codes.
-                  Kinds outside [simple_kind] have no canonical values, which
-                  makes the theorems silent (not wrong) about them.
-   [st0 out]      the packing state: octets written so far, no compression map.
-   [zero_of k]    the Go zero value of a field of kind k.
-   [same_field]   equal, or absent after unpacking while the packed value was
-                  the zero value (the generated unpack() returns early when the
-                  RDATA is exhausted). *)
+   [st0 out]        the packing state: octets written so far, no compression map.
+   [canon v k x]    x is a canonical value of field kind k inside the RDATA v:
+                    integers below 2^(8w); names that are the presentation form
+                    of a valid wire name; character-strings that print at most
+                    255 octets, non-empty lists of such; 4 / 16 octet addresses;
+                    octet strings with only the backslash escaped; opaque octets
+                    and, for a sized field, as many octets as its size field
+                    says; lists of names; type bitmaps that are strictly
+                    increasing lists of 16-bit codes; EDNS0 options and SVCB
+                    parameters held as (code, value) pairs that their own codecs
+                    reproduce (opt_view / svcb_view), SVCB keys strictly
+                    increasing; APL prefixes whose address is what unpacking
+                    rebuilds from its masked, zero-trimmed form.
+   [field_canon v f k]  the struct field f of v is canonical for k; for the
+                    IPSECKEY / AMTRELAY gateway union: address and host fields
+                    agree with the gateway type (4 octets / 16 octets / a valid
+                    name / nothing).
+   [knames f k]     the struct fields a statement assigns: f, or (gateway) the
+                    address and the host field.  [kzero k g]: the Go zero value.
+   [same_val z got want]  equal, or absent after unpacking while the packed
+                    value was the zero value z (the generated unpack() returns
+                    early when the RDATA is exhausted).
+   [all_same ps got want]  [same_val] for every struct field of the layout ps. *)
 
-(* one field: whatever pack_field writes for a canonical value, unpack_field of
-   the agreeing kind reads back as that value, consuming exactly those octets;
-   a to-the-end kind must be followed by nothing, a sized kind needs its size
-   field among the fields decoded so far *)
-Theorem field_value_roundtrip_partial :
-  forall (v : rdata) (f : string) (k k' : fkind) (x : fval) (cap : N) (out : bytes) (st' : pn_state),
-    kind_agree k k' = true -> vget v f = Some x -> canon v k x ->
+(* one field statement: whatever pack_field writes for canonical values,
+   unpack_field of the agreeing kind reads back as those values, consuming
+   exactly those octets; a to-the-end kind must be followed by nothing, a sized
+   kind (or the gateway) needs the field it depends on among those decoded *)
+Theorem field_value_roundtrip :
+  forall (v : rdata) (f : string) (k k' : fkind) (cap : N) (out : bytes) (st' : pn_state),
+    kind_agree k k' = true -> field_canon v f k ->
     pack_field v f k cap (st0 out) = Ok st' ->
-    exists b : bytes,
+    exists (b : bytes) (vals : list fval),
       st' = st0 (out ++ b) /\
-      (b = [] -> x = zero_of k) /\
+      Forall2 (fun g y => vget v g = Some y) (knames f k) vals /\
+      (b = [] -> Forall (fun g => vget v g = Some (kzero k g)) (knames f k)) /\
       forall (pre post : bytes) (got : rdata),
         (to_end k = true -> post = []) ->
-        (forall s, sized_by k = Some s -> vget_n got s = vget_n v s) ->
-        unpack_field got k' (pre ++ b ++ post) (lenN pre) = Ok ([x], lenN pre + lenN b).
-Proof. exact field_roundtrip. Qed.
-Print Assumptions field_value_roundtrip_partial.
+        (forall s, depends_on k = Some s -> vget_n got s = vget_n v s) ->
+        unpack_field got k' (pre ++ b ++ post) (lenN pre) = Ok (vals, lenN pre + lenN b).
+Proof. exact field_roundtrip_gen. Qed.
+Print Assumptions field_value_roundtrip.
 
-(* a field sequence: pack() of any layout that meets [layout_ok] (covered kinds,
-   distinct field names, sized fields sized by an earlier field, only the last
-   field of to-the-end extent) followed by the agreeing unpack() on the RDATA
-   octets gives every field back *)
-Theorem field_sequence_roundtrip_partial :
+(* a field sequence: pack() of any layout that meets [layout_ok] (assigned struct
+   fields pairwise distinct, a sized field or gateway depending on an earlier
+   field, only the last field of to-the-end extent) followed by the agreeing
+   unpack() on the RDATA octets gives every field back *)
+Theorem field_sequence_roundtrip :
   forall (v : rdata) (cap : N) (ps : list pfield) (us : list ufield) (pre out : bytes) (st' : pn_state),
     sides_agree ps us = true -> layout_ok [] ps = true -> fields_canon v ps ->
     pack_fields v ps cap (st0 out) = Ok st' ->
     exists (b : bytes) (got' : rdata),
       st' = st0 (out ++ b) /\
       unpack_fields us [] (pre ++ b) (lenN pre) = Ok (got', lenN pre + lenN b) /\
-      (b = [] -> Forall (fun fk : pfield => vget v (fst fk) = Some (zero_of (snd fk))) ps) /\
-      Forall (fun fk : pfield => same_field (snd fk) (vget got' (fst fk)) (vget v (fst fk))) ps.
+      (b = [] -> all_zero ps v) /\
+      all_same ps got' v.
 Proof. exact fields_roundtrip_top. Qed.
-Print Assumptions field_sequence_roundtrip_partial.
+Print Assumptions field_sequence_roundtrip.
 
-(* a record: packRR writes the owner name, TYPE, CLASS, TTL, RDLENGTH and the
-   RDATA ([rr_wire]), and UnpackRR at that offset of any message holding these
-   octets returns the record: same header fields, RDLENGTH = the RDATA length,
-   and every RDATA field the same.  The buffer must not be full already
-   (lenN out < cap): packRR at off = len(msg) writes no header at all. *)
-Theorem record_roundtrip_partial :
+(* every layout translated from zmsg.go on this run meets [layout_ok] *)
+Theorem every_layout_roundtrips : forallb layout_supported layouts = true.
+Proof. exact all_layouts_supported. Qed.
+Print Assumptions every_layout_roundtrips.
+
+Theorem roundtrip_covers :
+  map tl_name (filter layout_supported layouts) =
+  ["A"; "AAAA"; "AFSDB"; "AMTRELAY"; "ANY"; "APL"; "AVC"; "CAA"; "CDNSKEY"; "CDS"; "CERT"; "CNAME";
+   "CSYNC"; "DHCID"; "DLV"; "DNAME"; "DNSKEY"; "DS"; "EID"; "EUI48"; "EUI64"; "GID"; "GPOS"; "HINFO";
+   "HIP"; "HTTPS"; "IPSECKEY"; "ISDN"; "KEY"; "KX"; "L32"; "L64"; "LOC"; "LP"; "MB"; "MD"; "MF"; "MG";
+   "MINFO"; "MR"; "MX"; "NAPTR"; "NID"; "NIMLOC"; "NINFO"; "NS"; "NSAPPTR"; "NSEC"; "NSEC3";
+   "NSEC3PARAM"; "NULL"; "NXNAME"; "NXT"; "OPENPGPKEY"; "OPT"; "PTR"; "PX"; "RESINFO"; "RFC3597";
+   "RKEY"; "RP"; "RRSIG"; "RT"; "SIG"; "SMIMEA"; "SOA"; "SPF"; "SRV"; "SSHFP"; "SVCB"; "TA"; "TALINK";
+   "TKEY"; "TLSA"; "TSIG"; "TXT"; "UID"; "UINFO"; "URI"; "X25"; "ZONEMD"]%string.
+Proof. exact supported_census. Qed.
+Print Assumptions roundtrip_covers.
+
+(* a record of any type that has a layout: packRR writes the owner name, TYPE,
+   CLASS, TTL, RDLENGTH and the RDATA ([rr_wire], the RFC 1035 record format),
+   and UnpackRR at that offset of any message holding these octets returns the
+   record: same header fields, RDLENGTH = the RDATA length, every RDATA field
+   the same ([rr_same]).  [rr_ok r ls]: the owner is the presentation form of
+   the valid wire name ls, TYPE/CLASS below 2^16, TTL below 2^32, and the Go
+   struct type is the one registered for the TYPE code.  The buffer must not be
+   full already (lenN out < cap); see [record_roundtrip_needs_room]. *)
+Theorem record_roundtrip :
   forall (r : rr) (L : tlayout) (ls : list label) (cap : N) (out : bytes) (st' : pn_state) (post : bytes),
-    find_layout layouts (rr_kind r) = Some L -> layout_ok [] (tl_pack L) = true ->
+    find_layout layouts (rr_kind r) = Some L ->
     rr_ok r ls -> fields_canon (rr_data r) (tl_pack L) ->
     lenN out < cap ->
     pack_rr r cap false (st0 out) = Ok st' ->
@@ -138,30 +168,13 @@ Theorem record_roundtrip_partial :
       st' = st0 (out ++ rr_wire ls r rd) /\
       unpack_rr (out ++ rr_wire ls r rd ++ post) (lenN out) = Ok (r', lenN out + lenN (rr_wire ls r rd)) /\
       rr_rdlength r' = lenN rd /\ rr_same L r' r.
-Proof. exact rr_roundtrip. Qed.
-Print Assumptions record_roundtrip_partial.
+Proof. exact rr_roundtrip_all. Qed.
+Print Assumptions record_roundtrip.
 
-(* coverage of the three theorems above on the layouts translated on this run *)
-Theorem record_roundtrip_covers :
-  map tl_name (filter layout_supported layouts) =
-  ["A"; "AAAA"; "AFSDB"; "ANY"; "AVC"; "CAA"; "CDNSKEY"; "CDS"; "CERT"; "CNAME"; "CSYNC"; "DHCID";
-   "DLV"; "DNAME"; "DNSKEY"; "DS"; "EID"; "EUI48"; "EUI64"; "GID"; "GPOS"; "HINFO"; "HIP"; "ISDN";
-   "KEY"; "KX"; "L32"; "L64"; "LOC"; "LP"; "MB"; "MD"; "MF"; "MG"; "MINFO"; "MR"; "MX"; "NAPTR";
-   "NID"; "NIMLOC"; "NINFO"; "NS"; "NSAPPTR"; "NSEC"; "NSEC3"; "NSEC3PARAM"; "NULL"; "NXNAME";
-   "NXT"; "OPENPGPKEY"; "PTR"; "PX"; "RESINFO"; "RFC3597"; "RKEY"; "RP"; "RRSIG"; "RT"; "SIG";
-   "SMIMEA"; "SOA"; "SPF"; "SRV"; "SSHFP"; "TA"; "TALINK"; "TKEY"; "TLSA"; "TSIG"; "TXT"; "UID";
-   "UINFO"; "URI"; "X25"; "ZONEMD"]%string.
-Proof. exact supported_census. Qed.
-Print Assumptions record_roundtrip_covers.
-
-Theorem record_roundtrip_does_not_cover :
-  map tl_name (filter (fun L => negb (layout_supported L)) layouts) =
-  ["AMTRELAY"; "APL"; "HTTPS"; "IPSECKEY"; "OPT"; "SVCB"]%string.
-Proof. exact unsupported_census. Qed.
-Print Assumptions record_roundtrip_does_not_cover.
-
-(* non-vacuity: the hypotheses of the record theorem hold of a concrete MX and
-   a concrete TXT record, with the octets and the unpacked record computed *)
+(* non-vacuity: the hypotheses of the record theorem hold of a concrete MX, TXT
+   and IPSECKEY record, with the octets and the unpacked record computed.  The
+   IPSECKEY has an empty key: unpack() returns before the PublicKey statement
+   and the field is absent from the result (the zero-value case of same_val). *)
 Example record_roundtrip_mx :
   exists L st',
     find_layout layouts (rr_kind ex_mx) = Some L /\ layout_ok [] (tl_pack L) = true /\
@@ -183,3 +196,28 @@ Example record_roundtrip_txt :
       Ok ({| rr_name := rr_name ex_txt; rr_type := 16; rr_class := 1; rr_ttl := 4294967295; rr_rdlength := 9;
              rr_kind := "TXT"; rr_data := rr_data ex_txt |}, 27).
 Proof. exact txt_hypotheses_hold. Qed.
+
+Example record_roundtrip_ipseckey :
+  exists L st',
+    find_layout layouts (rr_kind ex_ipseckey) = Some L /\
+    rr_ok ex_ipseckey ex_owner /\ fields_canon (rr_data ex_ipseckey) (tl_pack L) /\
+    pack_rr ex_ipseckey 100 false (st0 []) = Ok st' /\
+    pn_out st' = rr_wire ex_owner ex_ipseckey [10; 1; 2; 192; 0; 2; 1] /\
+    unpack_rr (pn_out st') 0 =
+      Ok ({| rr_name := rr_name ex_ipseckey; rr_type := 45; rr_class := 1; rr_ttl := 0; rr_rdlength := 7;
+             rr_kind := "IPSECKEY";
+             rr_data := [("Precedence"%string, V_n 10); ("GatewayType"%string, V_n 1); ("Algorithm"%string, V_n 2);
+                         ("GatewayAddr"%string, V_b [192; 0; 2; 1]); ("GatewayHost"%string, V_s [])] |}, 25).
+Proof. exact ipseckey_hypotheses_hold. Qed.
+
+(* the hypothesis lenN out < cap cannot be dropped: at off = len(msg) packRR
+   writes no header, accepts a record with empty RDATA, and back-patches the
+   RDLENGTH over the two octets BEFORE the record *)
+Example record_roundtrip_needs_room :
+  rr_ok ex_any ex_owner /\ fields_canon (rr_data ex_any) [] /\
+  find_layout layouts (rr_kind ex_any) = Some {| tl_name := "ANY"; tl_pack := []; tl_unpack := [] |} /\
+  pack_rr ex_any 3 false (st0 [1; 2; 3]) = Ok (st0 [1; 0; 0]) /\
+  unpack_rr [1; 0; 0] 3 =
+    Ok ({| rr_name := []; rr_type := 0; rr_class := 0; rr_ttl := 0; rr_rdlength := 0;
+           rr_kind := kind_of_type 0; rr_data := [] |}, 3).
+Proof. exact full_buffer_quirk. Qed.
